@@ -87,7 +87,7 @@ def rand_valspec(rng: random.Random, tname: str):
     if x < 0.08:
         return {'j': None}
     if x < 0.13:
-        return {'exc': rng.choice(['ValueError', 'KeyError', 'Custom'])}
+        return {'exc': rng.choice(['ValueError', 'KeyError', 'Custom', 'Falsy', 'FalsyBool', 'TwoArg'])}
     if x < 0.17:
         return {'event': rng.randint(1, 9)}
     if x < 0.35:
@@ -160,6 +160,18 @@ def exec_typed(case) -> Result:
             ev = Ev()
         elif how == 'field' and T is not None:
             Ev = type('FieldEv', (engine.BaseEvent,), {'__module__': __name__, '__annotations__': {'event_result_type': Any}, 'event_result_type': T})
+            ev = Ev()
+        elif how.startswith('sub') and T is not None:
+            # a class hierarchy: a typed parent event class (instantiated first, or not) and a subclass that declares its own,
+            # different result type in its class body - the subclass's declaration is what counts for its instances
+            T0 = TYPES[case.get('parent_type') or 'str']
+            if how == 'subgeneric':
+                Parent = type('ParentEv', (engine.BaseEvent[T0],), {'__module__': __name__})
+            else:
+                Parent = type('ParentEv', (engine.BaseEvent,), {'__module__': __name__, '__annotations__': {'event_result_type': Any}, 'event_result_type': T0})
+            if case.get('parent_first', True):
+                Parent()
+            Ev = type('ChildEv', (Parent,), {'__module__': __name__, '__annotations__': {'event_result_type': Any}, 'event_result_type': T})
             ev = Ev()
         else:
             ev = engine.E0(event_result_type=T) if T is not None else engine.E0()
@@ -460,8 +472,12 @@ class C12Family(Family):
         for i in range(n_typed):
             rng = random.Random(f'c12t/{seed}/{i}')
             tname = rng.choice(tnames)  # not i % len: case index correlates with the shard, and one process must see many types
-            how = rng.choice(['kwarg', 'kwarg', 'generic', 'field'])
-            yield {'family': self.name, 'kind': 'typed', 'i': i, 'type': tname, 'value': rand_valspec(rng, tname), 'how': how}
+            how = rng.choice(['kwarg', 'kwarg', 'generic', 'field', 'subgeneric', 'subfield'])
+            case = {'family': self.name, 'kind': 'typed', 'i': i, 'type': tname, 'value': rand_valspec(rng, tname), 'how': how}
+            if how.startswith('sub'):
+                case['parent_type'] = rng.choice(['str', 'int', 'bytes', 'list[int]', 'Pt'])
+                case['parent_first'] = rng.random() < 0.75
+            yield case
         all_flags = [(a, b, c) for a in (True, False) for b in (True, False) for c in (True, False)]
         for i in range(n_acc):
             rng = random.Random(f'c12a/{seed}/{i}')
@@ -479,9 +495,9 @@ class C12Family(Family):
                 elif mode == 'lists' and x < 0.8:
                     outcomes.append({'k': 'val', 'v': {'j': [rng.randint(0, 2) for _ in range(rng.randint(0, 3))]}, 'name': name, 'sync': rng.random() < 0.3})
                 elif x < 0.12:
-                    outcomes.append({'k': 'raise', 'v': rng.choice(['ValueError', 'KeyError', 'Custom']), 'd': rng.choice([0, 0.01]), 'name': name})
+                    outcomes.append({'k': 'raise', 'v': rng.choice(['ValueError', 'KeyError', 'Custom', 'Falsy', 'FalsyBool', 'TwoArg', 'Unhashable']), 'd': rng.choice([0, 0.01]), 'name': name})
                 elif x < 0.18:
-                    outcomes.append({'k': 'val', 'v': {'exc': rng.choice(['ValueError', 'Custom'])}, 'name': name})
+                    outcomes.append({'k': 'val', 'v': {'exc': rng.choice(['ValueError', 'Custom', 'Falsy', 'FalsyBool'])}, 'name': name})
                 elif x < 0.24:
                     outcomes.append({'k': 'fwd', 'name': name})
                 elif x < 0.34:
